@@ -25,7 +25,7 @@ ASSUMPTIONS = ['equal formed arrays give bitwise equal results (observed; '
 TIMEOUT = {'quick': 900, 'thorough': 3 * 3600}
 setup_worker = common.setup_worker
 DTYPES = ['int64', 'int32', 'int16', 'int8', 'uint8', 'uint16']
-KINDS = ['array', 'list', 'callable', 'records']
+KINDS = ['array', 'list', 'callable', 'records', 'callable-list']
 
 
 class CustomError(Exception):
@@ -91,7 +91,7 @@ def _mkprep(kind, X):
     rows = [[int(v) if float(v).is_integer() else float(v) for v in r]
             for r in np.asarray(X).tolist()]
     return (lambda idx: np.array([rows[int(i)] for i in np.ravel(idx)])), None
-  mp = MonitoredPreprocessor(X)
+  mp = MonitoredPreprocessor(X, as_list=(kind == 'callable-list'))
   return mp, mp
 
 
